@@ -335,9 +335,12 @@ func (w *gsWorld) finish(op *gsOp) *gsOp {
 // gap, a snapshot just before the tick, one just after.
 func (w *gsWorld) RunTicks(n int, maxOpsPerGap int) {
 	c := w.c
+	// position inside the first gap; afterwards every iteration crosses exactly one tick
+	w.r.ToNextGap(time.Duration(c.Range(20, 200)) * time.Millisecond)
 	for i := 0; i < n && !c.Violated(); i++ {
-		// position inside the gap
-		w.r.ToNextGap(time.Duration(c.Range(20, 200)) * time.Millisecond)
+		if c.Chance(0.5) {
+			vSettle(time.Duration(c.Range(10, 600)) * time.Millisecond)
+		}
 		nops := c.Range(0, maxOpsPerGap)
 		for j := 0; j < nops && !c.Violated(); j++ {
 			w.Step()
